@@ -101,6 +101,21 @@ Theorem C20_retention_partial_repaired_slice : forall prefix n d date,
   (forall r k, In r removed -> In k kept -> name_leb (e_name r) (e_name k) = true).
 Proof. intros prefix n d date. apply head_retention. Qed.
 
+(* ... and, the names of the directory being unique, every entry of that tail really stays; in particular the file being
+   written stays whenever its name sorts last (dates do not run backwards).  Together with the theorem above: with the
+   repaired slice, in a directory holding only files, the file being written and the N-1 entries sorting directly below it
+   are kept and only entries sorting below those are removed. *)
+Theorem C20_retention_partial_repaired_slice_keeps : forall prefix n d date,
+  let d1 := open_file d (log_name prefix date) in
+  let files := listing d1 in
+  (forall e, In e d1 -> e_dir e = false) ->
+  NoDup (names d) ->
+  (forall e, In e (skipn (length files - S n) files) ->
+             has_name (e_name e) (fst (do_rollover SliceHead prefix (S n) d date)) = true) /\
+  ((forall e, In e d1 -> e_name e <> cur_name -> name_leb (e_name e) (log_name prefix date) = true) ->
+   has_name (log_name prefix date) (fst (do_rollover SliceHead prefix (S n) d date)) = true).
+Proof. intros prefix n d date. apply head_keeps. Qed.
+
 (* in both slices the newest file of the listing is the file being written when its name sorts last *)
 Theorem C20_written_file_is_last : forall prefix date d,
   (forall e, In e (open_file d (log_name prefix date)) -> e_name e <> cur_name ->
@@ -134,6 +149,7 @@ Print Assumptions C20_rejected_request_no_effect.
 Print Assumptions C20_rollover_frame.
 Print Assumptions C20_retention_zero_keeps_all.
 Print Assumptions C20_retention_partial_repaired_slice.
+Print Assumptions C20_retention_partial_repaired_slice_keeps.
 Print Assumptions C20_written_file_is_last.
 Print Assumptions C20_refuted_unnamed_level.
 Print Assumptions C20_refuted_retention.
